@@ -885,6 +885,8 @@ def iterator_collect(ex, st, info, args):
                     chars.extend(cs)
                 else:
                     raise ExecError('collect into String of %r' % (a,))
+            if all(isinstance(c, Int) and c.concrete for c in chars):
+                return RString((''.join(chr(c.v) for c in chars),)) if chars else RString(())
             return RString((('chars', tuple(chars)),)) if chars else RString(())
         if ik == 'Vec':
             ex.builtins_alloc(st2, len(acc))
